@@ -37,6 +37,8 @@ BUILT = {
          "trusted: independent reference codec wire.rs (checked against itself); RFC-strictness disagreements on transport parameters (non-minimal integers refused; slack bytes in two parameters accepted) are observations, not violations of C10 as stated"),
  "C18": ("asyncsim", "the real quinn crate on a harness Runtime (single-threaded deterministic executor, virtual timers, in-memory UDP with generated faults, GSO/GRO batching, send blocking): generated programs of 1-3 application tasks per side over 1-2 connections using every awaited operation with generated cancellation plans and handle drops, scheduled by generated scheduler bytes; oracles: no lost wakeup (spurious re-poll / fresh future at every idle point must not be ready), stuck-operation and livelock bounds in virtual time, byte-exact integrity and explained terminal results, cancel-safety through the integrity bookkeeping, implicit finish/stop/close on handle drop delivered within 3 s virtual on loss-free worlds, driver tasks terminate, no wake into a completed application task",
          "trusted: executor/network model (asyncsim.rs); single-threaded interleavings only (no true parallelism, tokio/smol adapters not run); SimCrypto; behaviours D2, D4, D5, D8 of notes/c18-NOTES.md are tolerated (documented semantics), D7 is C08's known finding"),
+ "C19": ("udp", "generated Transmits over real loopback sockets through quinn-udp's public API (fresh socket pair per scenario): exhaustive enumeration of 10 608 option combinations (6 address families/bindings incl. dual-stack and v4-mapped, every ECN codepoint and none, explicit source address or none in v4 and v6 form, send shapes, try_send/send, receive buffer shapes) plus proptest over payload lengths 1..max UDP payload, segment sizes and counts up to max_gso_segments() with short last segment, 1..BATCH_SIZE+4 receive buffers; oracle: RecvMeta.len cut by stride equals the transmitted segments byte for byte, ECN, source address/port and destination address as described, stride/len/buffer bounds with canary bytes behind every buffer, nothing extra arrives, Ok implies arrival; the fallback path is entered through a kernel-rejected 300-segment transmit (max_gso_segments drops to 1, plain sends complete, unmerged, untruncated)",
+         "trusted: Linux loopback delivers reliably within the retry schedule (missing datagrams are retried on three fresh socket pairs with 20/80/300 ms deadlines, other failures must reproduce on a second pair); this kernel supports GSO and GRO, a kernel without them is only approximated by the rejected-transmit fallback; send errors outside a model of the kernel's limits are discards"),
  "C20": ("simnet", "metamorphic replay relations on generated histories: R1 identical replay, R2 all instants shifted by a constant (1 us .. 10 years), R3 spurious handle_timeout/poll_transmit calls inserted; byte-exact output traces compared; extra calls return nothing; timeout service converges at one instant; silence after Drained",
          "trusted: harness; byte-exact under SimCrypto with seeded CID generator, reduced trace otherwise; TLS randomness excluded"),
  "C16": ("simnet", "datagram payload identity / at-most-once at recv(), oldest-first receive-buffer reference model fed with frames the connection reports processed, send() result model, send_buffer_space, max_size bounds, wire order, DatagramsUnblocked",
@@ -85,6 +87,8 @@ m = {
          "kind_free_text": "hand-written QUIC peer over the independent codec and SimCrypto key schedule, living at a sink address of the simulated network (pw.rs); the victim is an unmodified quinn endpoint whose application the check operates step by step"},
         {"name": "asyncsim", "path": "/verif/harness/src/asyncsim.rs", "serves_properties": [c["property_id"] for c in checks if c["engine"] == "asyncsim"],
          "kind_free_text": "deterministic single-threaded executor implementing quinn::Runtime, AsyncUdpSocket and AsyncTimer on virtual time with a generated task schedule"},
+        {"name": "udp", "path": "/verif/harness/src/checks/c19.rs", "serves_properties": [c["property_id"] for c in checks if c["engine"] == "udp"],
+         "kind_free_text": "real UDP sockets on the loopback interface driven through quinn-udp's UdpSocketState"},
         {"name": "codec", "path": "/verif/harness/src/checks/c10.rs", "serves_properties": [c["property_id"] for c in checks if c["engine"] == "codec"],
          "kind_free_text": "enumeration and proptest drivers over quinn-proto's encoders/decoders (reached through the verif-hooks codec wrappers) with the independent codec wire.rs as differential reference; cargo-fuzz targets in /verif/fuzz share the same case functions"},
         {"name": "tokens", "path": "/verif/harness/src/checks/c14c.rs", "serves_properties": [c["property_id"] for c in checks if c["engine"] == "tokens"],
